@@ -169,6 +169,11 @@ def solve_with_interval(goal, cond):
     var = convert(cond.arg1)
     interval = convert(cond.arg)
 
+    # The interval condition says nothing about other variables: solveset
+    # would treat them as parameters (and never finds zeros of divisors in them).
+    if any(v != cond.arg1 for v in goal.get_vars()):
+        return False
+
     # No divisor may vanish on the interval.
     try:
         for d in get_divisors(goal):
